@@ -8,3 +8,13 @@ void softHSMLog(const int /*loglevel*/, const char* /*functionName*/, const char
                 const int /*lineNo*/, const char* /*format*/, ...)
 {
 }
+
+#ifdef VP_NATIVE
+// native twin only: ByteString's SecureAllocator registers every buffer; the registry is irrelevant to every
+// contract and its real implementation needs the mutex factory
+#include "SecureMemoryRegistry.h"
+static long vp_smr_store[64];
+SecureMemoryRegistry* SecureMemoryRegistry::i() { return (SecureMemoryRegistry*)(void*)vp_smr_store; }
+void SecureMemoryRegistry::add(void*, size_t) {}
+size_t SecureMemoryRegistry::remove(void*) { return 0; }
+#endif
